@@ -80,15 +80,29 @@ Section Nonint.
   Definition off (act : list bool) : Prop := nth j act false = false.
 
   (* ---- masked quantities do not see component j ------------------------------------------- *)
-  Lemma masked_eq : forall (jj : nat) (a b tv : list F) (act lg : list bool),
-    agree_off jj a b -> nth jj act false = false ->
-    res_pen E (map2 (e_sub E) a tv) act lg a tv = res_pen E (map2 (e_sub E) b tv) act lg b tv.
+  Lemma transformed_agree : forall ts (jj : nat) (a b : list F),
+    agree_off jj a b -> agree_off jj (transformed E ts a) (transformed E ts b).
   Proof.
-    intros jj a; revert jj; induction a as [|x a IH]; intros jj [|y b] tv act lg; cbn [agree_off]; try tauto.
-    destruct tv as [|t tv]; [reflexivity|]. destruct act as [|c act]; [reflexivity|]. cbn [map2 res_pen hd tl].
-    destruct jj as [|jj]; cbn [nth].
-    - intros -> ->. reflexivity.
-    - intros [-> H] Hc. f_equal. apply (IH jj); auto.
+    intros ts jj a; revert ts jj; induction a as [|x a IH]; intros ts jj [|y b]; cbn [agree_off transformed]; try tauto.
+    destruct jj as [|jj].
+    - intros ->. reflexivity.
+    - intros [-> H]. split; auto.
+  Qed.
+
+  (* a' b': the transformed values (residual); a b: the raw values (logarithm of optimize_log targets) *)
+  Lemma masked_eq : forall (jj : nat) (a' b' a b tv : list F) (act lg : list bool),
+    agree_off jj a' b' -> agree_off jj a b -> nth jj act false = false ->
+    res_pen E (map2 (e_sub E) a' tv) act lg a tv = res_pen E (map2 (e_sub E) b' tv) act lg b tv.
+  Proof.
+    intros jj a'; revert jj; induction a' as [|x' a' IH]; intros jj [|y' b'] a b tv act lg; cbn [agree_off]; try tauto.
+    destruct tv as [|t tv]; [reflexivity|]. destruct act as [|c act]; [reflexivity|]. cbn [map2 res_pen].
+    destruct a as [|x a], b as [|y b]; cbn [agree_off hd tl]; try tauto.
+    - destruct jj as [|jj]; cbn [nth].
+      + intros -> _ ->. reflexivity.
+      + intros [-> H] _ Hc. f_equal. apply (IH jj); cbn; auto.
+    - destruct jj as [|jj]; cbn [nth].
+      + intros -> -> ->. reflexivity.
+      + intros [-> H] [-> H'] Hc. f_equal. apply (IH jj); auto.
   Qed.
 
   Lemma log_bad_eq : forall (jj : nat) (a b tv : list F) (act lg : list bool),
@@ -144,14 +158,18 @@ Section Nonint.
     - pose proof (fR k') as Hf. destruct (f1 k') as [r1|], (f2 k') as [r2|]; try tauto.
       + change (log_bad E2) with (log_bad E). change (log_bad E1) with (log_bad E).
         rewrite (log_bad_eq j r1 r2 (c_tval cf) (ta s1) (c_tlog cf) Hf Hoff).
+        pose proof (transformed_agree (c_ttrans cf) j r1 r2 Hf) as Hft.
         assert (Hwi : all_ok (within E1 cf r1) (ta s1) = all_ok (within E2 cf r2) (ta s1)).
-        { unfold all_ok, within, residual. cbn [e_sub e_ltb e_abs with_f]. f_equal. apply (allok_eq j); auto. }
+        { unfold all_ok, within, residual. change (transformed E1) with (transformed E). change (transformed E2) with (transformed E).
+          cbn [e_sub e_ltb e_abs with_f]. f_equal. apply (allok_eq j); auto. }
         assert (Hwa : agree_off j (within E1 cf r1) (within E2 cf r2)).
-        { unfold within, residual. cbn [e_sub e_ltb e_abs with_f]. apply within_agree; auto. }
+        { unfold within, residual. change (transformed E1) with (transformed E). change (transformed E2) with (transformed E).
+          cbn [e_sub e_ltb e_abs with_f]. apply within_agree; auto. }
         destruct (log_bad E (ta s1) (c_tlog cf) r2 (c_tval cf)).
         { cbn. split; auto. unfold stR; stsimpl. repeat split; auto. }
         cbn. split.
         * unfold merit_out, residual. change (res_pen E2) with (res_pen E). change (res_pen E1) with (res_pen E).
+          change (transformed E1) with (transformed E). change (transformed E2) with (transformed E).
           cbn [e_sub e_zero e_mul with_f]. f_equal. apply (masked_eq j); auto.
         * unfold stR; stsimpl. repeat split; auto.
       + cbn. split; auto. unfold stR; stsimpl. repeat split; auto.
